@@ -258,7 +258,28 @@ def any_object(draw):
 
 @st.composite
 def tuple_cases(draw):
-    mode = draw(st.sampled_from(["any", "twins", "mesh_only", "perms", "same_pattern", "derived", "derived"]))
+    mode = draw(st.sampled_from(["any", "twins", "mesh_only", "perms", "same_pattern", "derived", "derived", "perm_neighbours"]))
+    if mode == "perm_neighbours":
+        # permutations of one length (5-12) that agree on a long prefix and differ only near the end,
+        # plain and as (unshaded / one-cell) mesh patterns: the lexicographic order is decided late
+        n = draw(st.integers(5, 12))
+        base = list(draw(gen.perm_of(n)))
+        out = [base]
+        for _ in range(2):
+            v = list(base)
+            kind = draw(st.sampled_from(["swap_last_two", "swap_near_end", "rotate_last_three"]))
+            if kind == "swap_last_two":
+                v[-1], v[-2] = v[-2], v[-1]
+            elif kind == "swap_near_end":
+                i = draw(st.integers(n - 4, n - 2))
+                v[i], v[-1] = v[-1], v[i]
+            else:
+                v[-3:] = [v[-1], v[-3], v[-2]]
+            out.append(v)
+        if draw(st.integers(0, 2)) == 0:
+            cell = [draw(st.integers(0, n)), draw(st.integers(0, n))]
+            out = [[q, [cell]] for q in out]
+        return out
     if mode == "derived":
         # the same mesh pattern reached through operations on (warmed) parents, next to its
         # plain twin and to a neighbour on the same underlying pattern
